@@ -49,6 +49,7 @@ type fnInfo struct {
 	native nativeFn
 	repl   *ssa.Function
 	err    string
+	noRace bool // model / harness code: memory accesses are not recorded for the race query
 }
 
 // Program is the loaded target: shared by all workers, read-only apart from
@@ -204,6 +205,13 @@ func (p *Program) info(fn *ssa.Function) *fnInfo {
 
 func (p *Program) compile(fn *ssa.Function) *fnInfo {
 	info := &fnInfo{name: fn.String()}
+	if fn.Pkg != nil && strings.Contains(fn.Pkg.Pkg.Path(), "/zzverif/") {
+		info.noRace = true
+	} else if fn.Pkg == nil {
+		if par := fn.Parent(); par != nil && par.Pkg != nil && strings.Contains(par.Pkg.Pkg.Path(), "/zzverif/") {
+			info.noRace = true
+		}
+	}
 	// generic instantiations share the origin's name for native lookup
 	name := info.name
 	if o := fn.Origin(); o != nil {
